@@ -46,3 +46,11 @@ impl Vm {
         self.acc = VCell::Undefined;
     }
 }
+
+/// Verification hooks (cargo feature `verif-hooks`). Add-only.
+#[cfg(feature = "verif-hooks")]
+impl Continuation {
+    pub fn verif_new(stack: Stack, ep: usize, ip: (usize, usize), bp: usize) -> Continuation {
+        Continuation { stack, ep, ip, bp }
+    }
+}
